@@ -111,11 +111,13 @@ def check_case(case, ctx):
 def strategy(tier):
     @st.composite
     def _s(draw):
-        case = draw(gen.fork_case()) if draw(st.integers(0, 5)) == 0 else draw(common.mixed_case(tier, ne_share=3, min_len=2))
+        pick_gen = draw(st.integers(0, 11))
+        case = (draw(gen.fork_case()) if pick_gen == 0 else draw(gen.star_case()) if pick_gen == 1 else
+                draw(common.mixed_case(tier, ne_share=3, min_len=2)))
         g = case["graph"]
         n = len(g)
         kind = draw(st.sampled_from(["relabel", "relabel", "reorder", "swap", "scale", "scale", "translate", "all"]))
-        if case.get("gen") == "fork":
+        if case.get("gen") in ("fork", "star"):
             kind = draw(st.sampled_from(["reorder", "reorder", "all", "relabel"]))  # tied branches: the listing order is what matters
         if kind == "relabel" and type(g[0][0]) is int and draw(st.booleans()):
             # start from string labels so that the relabelling goes to integers (including 0)
